@@ -530,11 +530,7 @@ func (s *c06ReqStats) add(o *c06ReqStats) {
 
 func TestVerif_C06(t *testing.T) {
 	r := vrt.Begin(t, "C06", "exploration")
-	defer func() {
-		if !t.Failed() { // after r.ToolError the result file already holds the tool error
-			r.End()
-		}
-	}()
+	defer r.End()
 	if rp := r.Replay(); rp != nil {
 		var a c06Art
 		if err := json.Unmarshal(rp, &a); err != nil {
